@@ -959,16 +959,47 @@ func fxTableProducer(P *ir.Program, fv ssa.Value, depth int) *ssa.Function {
 // exported functions (DefaultKeyCompare, DefaultLayer, …) stay leaves.
 func fxHelperLeaves(v ssa.Value, depth int) []ssa.Value {
 	var out []ssa.Value
+	for _, l := range fxHelperLeavesEnv(v, depth, nil) {
+		out = append(out, l.V)
+	}
+	return out
+}
+
+// fxEnvLeaf is a leaf of fxHelperLeavesEnv: a value, and what the parameters
+// of the helper(s) it was found in stand for at the call site(s) followed.
+type fxEnvLeaf struct {
+	V   ssa.Value
+	Env map[*ssa.Parameter]ssa.Value
+}
+
+// Arg resolves x, when it is a parameter of a followed helper, to the caller's argument.
+func (l fxEnvLeaf) Arg(x ssa.Value) ssa.Value {
+	if p, ok := fxStripNoConv(x).(*ssa.Parameter); ok {
+		if a, has := l.Env[p]; has {
+			return a
+		}
+	}
+	return x
+}
+
+// fxHelperLeavesEnv is fxHelperLeaves for functions and statically bound
+// methods alike, remembering the arguments of the calls it follows.
+func fxHelperLeavesEnv(v ssa.Value, depth int, env map[*ssa.Parameter]ssa.Value) []fxEnvLeaf {
+	var out []fxEnvLeaf
 	for _, l := range (&fxAssume{}).leaves(v, nil) {
 		if call, idx := fxCallOf(l); call != nil && depth < 2 {
 			callee := ir.Callee(call.Call)
 			if callee != nil && callee.Blocks != nil && callee.Pkg != nil && callee.Pkg.Pkg.Path() == ir.MastPath &&
-				callee.Object() != nil && !callee.Object().Exported() && callee.Signature.Recv() == nil {
+				callee.Object() != nil && !callee.Object().Exported() && !call.Call.IsInvoke() && len(callee.Params) == len(call.Call.Args) {
+				sub := map[*ssa.Parameter]ssa.Value{}
+				for i, q := range callee.Params {
+					sub[q] = fxEnvLeaf{Env: env}.Arg(call.Call.Args[i])
+				}
 				n := 0
 				for _, r := range ir.Returns(callee) {
 					if idx < len(r.Results) {
 						n++
-						out = append(out, fxHelperLeaves(r.Results[idx], depth+1)...)
+						out = append(out, fxHelperLeavesEnv(r.Results[idx], depth+1, sub)...)
 					}
 				}
 				if n > 0 {
@@ -976,7 +1007,7 @@ func fxHelperLeaves(v ssa.Value, depth int) []ssa.Value {
 				}
 			}
 		}
-		out = append(out, l)
+		out = append(out, fxEnvLeaf{l, env})
 	}
 	return out
 }
